@@ -1,6 +1,7 @@
 package rules
 
 import (
+	"go/token"
 	"fmt"
 	"go/types"
 	"sort"
@@ -329,6 +330,19 @@ func eventValues(w *an.World, v ssa.Value) []string {
 			rec(x.X)
 		case *ssa.Convert:
 			rec(x.X)
+		case *ssa.UnOp:
+			// defer-spilled result: `*t0 = ev; rundefers; t = *t0; return t`
+			if al, ok := x.X.(*ssa.Alloc); ok && x.Op == token.MUL {
+				stores, fromEntry := an.StoresReaching(x, al)
+				for _, s := range stores {
+					rec(s.Val)
+				}
+				if fromEntry || len(stores) == 0 {
+					m["?"] = true
+				}
+				return
+			}
+			m["?"] = true
 		case *ssa.Call:
 			ci := w.Info(x)
 			if ci.Name == fxActionExecute {
